@@ -510,6 +510,7 @@ class Check:
                 head = subprocess.run(["git", "-C", REPO, "rev-parse", "--short", "HEAD"], capture_output=True, text=True).stdout.strip()
                 dirty = subprocess.run(["git", "-C", REPO, "status", "--short", "--untracked-files=no"], capture_output=True, text=True).stdout.strip().splitlines()
                 print("TREE-UNDER-TEST repo=%s head=%s sources=%s include=%s uncommitted_changes=%s" % (REPO, head or "?", repo_hash("tbb"), repo_hash("include"), dirty[:8] if dirty else "none"))
+                print("MACHINE cpus=%s usable=%s loadavg=%s" % (os.cpu_count(), len(os.sched_getaffinity(0)), open("/proc/loadavg").read().strip()))
             except Exception as e:
                 print("TREE-UNDER-TEST repo=%s (git state unavailable: %s)" % (REPO, e))
         for i, v in enumerate(self.violations):
@@ -526,6 +527,8 @@ class Check:
             replay_paths.append(p)
             print("VIOLATION property=%s replay=%s key=%s" % (self.prop, p, v["key"]))
             print("  detail: " + v["detail"][:800].replace("\n", "\n  "))
+            if i < 3:
+                print("  scenario: " + json.dumps(v.get("scenario", {}))[:4000])
             rc = 1
         cov = {
             "evaluations": int(self.evaluations),
